@@ -343,6 +343,29 @@ def _get_cpu_list(bounding_box, lmax, levelmax, infofile, ncpu, ndim):
             if j + 1 not in cpu_list:
                 cpu_list.append(j + 1)
 
+    # Leaf cells coarser than the search cubes are not covered by the key ranges
+    # above: they live in the cpu that holds the Hilbert key of the centre of their
+    # parent cell. Above the search level, the bounding box spans at most two cells
+    # per dimension, so there are at most 8 candidate parent cells per level.
+    nbits = levelmax + 1
+    for ilevel in range(bit_length):
+        ncell = 2**ilevel
+        half = 2 ** (nbits - ilevel - 1)
+        cells = [
+            {int(lo * ncell), min(int(hi * ncell), ncell - 1)}
+            for lo, hi in ((xmin, xmax), (ymin, ymax), (zmin, zmax))
+        ]
+        for i in cells[0]:
+            for j in cells[1]:
+                for k in cells[2]:
+                    key = _hilbert3d(
+                        (2 * i + 1) * half, (2 * j + 1) * half, (2 * k + 1) * half, nbits
+                    )
+                    for impi in range(ncpu):
+                        if bound_key[impi] <= key < bound_key[impi + 1]:
+                            if impi + 1 not in cpu_list:
+                                cpu_list.append(impi + 1)
+
     return cpu_list
 
 
